@@ -29,7 +29,7 @@ META = {
                 "is compared concretely", "rounding"],
     "assumptions": ["reals for floats", "x stays inside the enumerated grid cell (path condition from floor())"],
 }
-TIMEOUT_S = {"quick": 600, "thorough": 900}
+TIMEOUT_S = {"quick": 1200, "thorough": 1800}
 
 
 def multitask_formula(S, kind, n1, n2):
